@@ -103,6 +103,9 @@ class C04(Prop):
                     if kind == "sparse_nan" and rng.random() < 0.6: x = None
                     row.append(x)
                 W.append(row)
+            if kind in ("nan_int", "step") and i % 4 == 2:      # the same profile in a much smaller or larger unit (exact power of two): the optimal assignments do not change
+                u = 2.0 ** [-60, -200, -1000, 200, 900, -70][(i // 4) % 6]
+                W = [[(None if x is None else x * u) for x in row] for row in W]; kind = kind + "_unit"
             c = dict(entry="MaximumWeightMatching.scf", family=kind, W=W, zi=bool(i % 2), itype=(kind == "int" and i % 3 == 0))
             if i % 3 == 1:        # the rule object is reused: complete and other NaN-pattern profiles of the same size first
                 def other():
@@ -175,7 +178,8 @@ class C04(Prop):
         if any(W[i][out[i]] is None for i in range(n)):
             return ("unacceptable_pair", "assignment uses an unacceptable (NaN) pair")
         val = sum(W[i][out[i]] for i in range(n))
-        if val != best and abs(float(val - best)) > 1e-9:
+        scale = max([abs(x) for row in W for x in row if x is not None] or [0])       # the tolerance is relative to the unit the utilities are measured in
+        if val != best and abs(val - best) > Fraction(1, 10 ** 9) * scale:
             return ("not_maximal", "welfare %s but the maximum is %s" % (float(val), float(best)))
         if obs.get("mutated"):
             return ("mutated_argument", "valuation profile modified")
